@@ -281,6 +281,21 @@ class ObjRunner:
                 else:
                     raise AnalysisError(f"object model: isinstance against an undetermined class in {U(call)[:60]!r}")
             return out
+        if name in ("getattr", "setattr", "hasattr") and name not in interp.env and len(args) >= 2 and isinstance(args[0], dict) \
+                and "__class__" in args[0] and isinstance(args[1], str):
+            obj, attr = args[0], args[1]
+            if name == "setattr" and len(args) == 3:
+                obj[attr] = args[2]
+                return None
+            if name in ("getattr", "hasattr"):
+                val = self.attrs(interp, obj, attr, call) if attr not in obj else obj[attr]
+                if val is NotImplemented:
+                    if name == "hasattr":
+                        return False
+                    if len(args) == 3:
+                        return args[2]
+                    raise Flow("raise", f"AttributeError({attr!r})", call)
+                return True if name == "hasattr" else val
         # regular expressions on model strings (the standard library's semantics, not repository code)
         if isinstance(call.func, ast.Name) and name not in interp.env and hasattr(__import__("math"), name) and args \
                 and all(isinstance(a, (int, float)) for a in args) and self._from_math(call, name):
